@@ -392,6 +392,8 @@ class Exec:
                 return v != 0
             if v.sort() == S:
                 return z3.Length(v) > 0
+            if is_atom(v):
+                return v != atom_const(v.sort(), "")       # a name is true unless it is the empty string
             raise Unsupported("truth of sort %s" % v.sort())
         if isinstance(v, (ListV, tuple)):
             return len(v.items if isinstance(v, ListV) else v) > 0
@@ -1072,6 +1074,8 @@ class Exec:
         if rif and isinstance(st.get(env.get(rif[0])), Obj) and rif[1] in st.get(env[rif[0]]).f:
             # the result is a ghost field of the receiver when the caller's object model has one (else: fresh)
             res = st.get(env[rif[0]]).f[rif[1]]
+            if c.yields is not None:
+                spec_env["src_"] = Seq(st.get(res).n, self.fresh_elems(dsl.TupT(dsl.Int, dsl.Int, dsl.Int), "src", st))
         elif c.ghost.get("result_is"):
             # the result is the value of a spec expression over the arguments (e.g. a ghost field of the receiver)
             res = self.spec_value(c.ghost["result_is"], spec_env, st, old_st=pre_st)
@@ -1092,9 +1096,13 @@ class Exec:
             st.ghost["view_groups"] = (gG, z3.Function(fresh_name("grp_lo"), I, I))
         self.assume_mode += 1      # use(...) hints of the callee's clauses are dropped (they are valid formulas)
         try:
+            top = self.frames[0].contract if self.frames else None
+            keep = (top.ghost.get("callee_clauses") or {}).get(c.key) if top is not None else None
             for lab, ens in c.ensures:
                 if "local_" in ens:
                     continue       # stepping-stone clauses about the callee's locals are not part of its interface
+                if keep is not None and lab not in keep:
+                    continue       # the caller's contract says which of the callee's clauses its proof uses (fewer is sound)
                 f = self.spec_formula(ens, spec_env, st, old_st=pre_st)
                 st.assume(_b(f))
         finally:
@@ -1374,6 +1382,16 @@ class Exec:
             out = []
             for s, o in self.ev(t.value, st):
                 for s2, i in self.ev_index(t.slice, s):
+                    ov = s2.get(o)
+                    key = s2.get(i) if isinstance(i, Ref) else i
+                    if isinstance(ov, Rec) and not isinstance(o, Ref) and isinstance(t.value, ast.Name) and isinstance(key, str):
+                        # row["field"] = value on a row held in a local variable (a private copy: rows are values here):
+                        # the variable is rebound to the row with that field set (a new field is appended, as in pandas)
+                        f = dict(ov.f)
+                        f[key] = v
+                        s2.env[t.value.id] = Rec(f, ov.name)
+                        out.append(s2)
+                        continue
                     out += self.lib.set_item(self, s2, o, i, v, t)
             return out
         raise Unsupported("assignment target " + type(t).__name__)
